@@ -56,6 +56,14 @@ CLAIMED = {
          "non-zero for aligned lengths. The byte layout of values inside slots versus what std::storage reads reassemble is not decided.",
          "Trusted: rustc MIR; syn; fuel_crypto::Hasher = SHA-256 of concatenated inputs.",
          "DESIGN.md §3 C12"),
+ "C13": ("E-MIR+E-TAB", "other", "MIR result-provenance on Entry::equiv, who-constructs / who-calls rules on configurable entries and LoadDataId, AGREE between the offset function and the serializer (syn), commutativity (mirrored-arm canonical form) and bound-selection SPEC on the encoded-size lattice",
+         "Decides: two configurables can never share a data-section entry (equiv conjoins name equality; insertion routes by name kind); reported "
+         "offsets and code addresses both come from absolute_idx_to_offset, which agrees with serialize_to_bytes on entry order, per-entry size and "
+         "alignment, with configurable indices shifted by the number of non-configurables; no LoadDataId can name a configurable entry (so the asm "
+         "optimizers never fold a default); AbiEncodeSizeHint::{min,max,range_from_min_max}, which size a configurable's slot, are commutative and use "
+         "lower bounds in min / upper bounds in max. That decoding a patched slot yields the patched value is not decided.",
+         "Trusted: rustc MIR; syn.",
+         "DESIGN.md §3 C13"),
  "C15": ("E-MIR", "other", "lint-configuration check + MIR enumeration of iteration over randomly seeded hash collections with order-insensitive-sink idioms (forward iterator-chain following) + who-may-call rule on ambient sources",
          "Decides: the project's deny lint on hash-order iteration stays armed for every output-affecting crate; every iteration-API call on a "
          "RandomState / hashbrown-default / DashMap collection in those crates ends in an order-insensitive sink or is an individually reviewed "
